@@ -38,7 +38,7 @@ def simulate(n, depth_cfg, seed, timeout=120):
     if len(res) < n: raise vlib.ModelError("Manif.tla simulation produced only %d of %d behaviours" % (len(res), n))
     return res
 
-def run(prop, tier, seed, variants, rule, assumptions):
+def run(prop, tier, seed, variants, rule, assumptions, extra=None):
     """variants: list of (suffix, extra_defs, compiler, flags)"""
     rep = vlib.Report(prop, tier, seed)
     rep.assumptions = assumptions
@@ -110,6 +110,7 @@ def run(prop, tier, seed, variants, rule, assumptions):
     with cf.ThreadPoolExecutor(n) as ex:
         for r, st2 in ex.map(val, range(n)):
             results += r; rep.states += st2[0]; rep.transitions += st2[1]
+    if extra is not None: results = results + extra(rep, tier, seed)
     rep.judge(results, lambda e, i: True)
     rep.cells = set()
     for r in results:
